@@ -722,8 +722,16 @@ func (r *Round) getState() Phase {
 }
 
 func (r *Round) setPhase(state Phase) {
-	if state > r.getState() {
-		atomic.StoreInt32((*int32)(&r.phase), int32(state))
+	// advance with compare-and-swap: with a plain load-then-store two concurrent
+	// callers could interleave and the smaller phase overwrite the larger one
+	for {
+		cur := atomic.LoadInt32((*int32)(&r.phase))
+		if int32(state) <= cur {
+			return
+		}
+		if atomic.CompareAndSwapInt32((*int32)(&r.phase), cur, int32(state)) {
+			return
+		}
 	}
 }
 
